@@ -23,6 +23,7 @@ type VfEnvT struct {
 	WritePath []string
 	Log       []string // environment calls in order
 	Touched   []string // paths created, truncated, removed or renamed by anything but a successful WriteFile
+	Cwd       string   // the working directory of the virtual environment
 }
 
 var VfEnv VfEnvT
@@ -43,6 +44,16 @@ func vfStub_filepath_Glob(pattern string) ([]string, error) {
 // filepath.Clean on the spellings the scenarios use: leading "./" elements
 // are dropped. Files are identified by their clean name.
 func vfStub_filepath_Clean(p string) string { return VfCanon(p) }
+
+// The working directory is only visible through these two.
+func vfStub_filepath_Abs(p string) (string, error) {
+	if len(p) > 0 && p[0] == '/' {
+		return p, nil
+	}
+	return VfEnv.Cwd + "/" + VfCanon(p), nil
+}
+
+func vfStub_os_Getwd() (string, error) { return VfEnv.Cwd, nil }
 
 func VfCanon(p string) string {
 	for len(p) > 2 && p[0] == '.' && p[1] == '/' {
